@@ -151,7 +151,7 @@ Definition check_base_asset_holding_cap (w : world) (vamm : addr) (size : Z) (tr
 
 (* realize_bad_debt: (messages to prepend, new state, pre-paid shortfall) *)
 Definition realize_bad_debt (w : world) (st : estate) (bad_debt : Z) : res (list submsg * estate * Z) :=
-  if bad_debt <? e_bad_debt st then
+  if bad_debt <=? e_bad_debt st then
     do n <- csub (e_bad_debt st) bad_debt;
     Ok ([], mkEstate (e_oi st) n (e_pause st), 0)
   else
